@@ -73,8 +73,16 @@ type coordCfg struct {
 	StoreFaults   bool            // timing run only: an event arms ONE failing PutConsumerGroup (transient metadata-store write error)
 	Timing        bool            // timing run: reduced request alphabet (join{a}/rejoin/sync/heartbeat/leave, current generation only), finer advances
 	SessionChange bool            // timing alphabet only (C43): every join/rejoin exists in two variants asking for session coordSessionTO or coordSessionAlt
+	AnonIDs       bool            // C13 only: commit/heartbeat/sync also with the EMPTY member id (generation -1 = Kafka's "simple consumer" shape; commit also with the current generation)
 	Depth         int
 }
+
+// coordAnonM is the event member number of the empty member id; coordGenNone as generation offset means the
+// absolute generation -1 (what a client without group membership sends).
+const (
+	coordAnonM   int8 = -2
+	coordGenNone int8 = -128
+)
 
 // coordTimingCfg: irregular heartbeat spacing. Advances from a quarter of a cleanup interval (1/12 of the
 // session) upwards, on and off the tick grid, so that accepted heartbeats close to the previous refresh, and
@@ -217,12 +225,17 @@ func coordMemberName(m int8) string {
 	if m == -1 {
 		return "ghost"
 	}
+	if m == coordAnonM {
+		return "empty-id"
+	}
 	return fmt.Sprintf("m%d", m)
 }
 
 func (e coordEv) String() string {
 	gen := "cur"
-	if e.G != 0 {
+	if e.G == coordGenNone {
+		gen = "-1(absolute)"
+	} else if e.G != 0 {
 		gen = fmt.Sprintf("cur%+d", e.G)
 	}
 	switch e.K {
@@ -731,7 +744,19 @@ type coordWorld struct {
 	cur        coordProj
 	curOff     map[string]int64
 	panics     int
+	kept       map[string]*coordKeptSync // only when the oracle asks for it (C12): member id -> its latest successful SyncGroup reply bytes as returned
 }
+
+// coordKeptSync: the MemberAssignment slice of a successful SyncGroup reply exactly as the coordinator
+// returned it (Raw, not copied) and a copy taken at reply time.
+type coordKeptSync struct {
+	Gen  int32
+	Raw  []byte
+	Copy []byte
+}
+
+// coordSyncKeeper is implemented by an oracle that wants the world to retain the reply slices (C12 only).
+type coordSyncKeeper interface{ KeepSyncBytes() bool }
 
 // The shimmed rand.Int63 has no arguments and replays run on parallel workers, so the
 // value for "this" replay is handed over under a global mutex: a JoinGroup call that will
@@ -803,6 +828,9 @@ func (w *coordWorld) name(id string) string {
 func (w *coordWorld) idOf(m int) string {
 	if m == -1 {
 		return coordGhostID
+	}
+	if m == int(coordAnonM) {
+		return ""
 	}
 	if m >= 1 && m <= len(w.ids) {
 		return w.ids[m-1]
@@ -931,6 +959,12 @@ func (w *coordWorld) Enabled() []coordEv {
 		}
 	}
 	evs = append(evs, coordEv{K: coordKLeave, M: -1})
+	if w.cfg.AnonIDs {
+		// requests without a member id: generation -1 (a client that is not a group member), commit also at the current generation
+		tp := coordTPIndex(w.cfg.CommitTPs[0])
+		evs = append(evs, coordEv{K: coordKCommit, M: coordAnonM, G: coordGenNone, T: tp}, coordEv{K: coordKCommit, M: coordAnonM, T: tp},
+			coordEv{K: coordKHb, M: coordAnonM, G: coordGenNone}, coordEv{K: coordKSync, M: coordAnonM, G: coordGenNone})
+	}
 	return evs
 }
 
@@ -1014,6 +1048,12 @@ func (w *coordWorld) call(c *GroupCoordinator, st *coordStep) (r *coordResp) {
 				r.AssignErr = derr.Error()
 			}
 			r.Assign = a
+			if k, ok := w.orc.(coordSyncKeeper); ok && k.KeepSyncBytes() && c == w.c {
+				if w.kept == nil {
+					w.kept = map[string]*coordKeptSync{}
+				}
+				w.kept[st.ReqMember] = &coordKeptSync{Gen: st.ReqGen, Raw: resp.MemberAssignment, Copy: append([]byte(nil), resp.MemberAssignment...)}
+			}
 		}
 	case "hb":
 		req := kmsg.NewPtrHeartbeatRequest()
@@ -1090,6 +1130,9 @@ func (w *coordWorld) step(e coordEv, judged bool) (string, []xstate.Violation) {
 			st.ReqMember = w.idOf(int(e.M))
 		}
 		st.ReqGen = st.Pre.Gen + int32(e.G)
+		if e.G == coordGenNone {
+			st.ReqGen = -1
+		}
 		if e.K == coordKCommit {
 			st.CommitOff = 5
 			if st.PreOff[coordAllTPs[e.T]] == 5 {
@@ -1549,6 +1592,13 @@ func coordRunCheck(t *testing.T, id string, mk func() coordOracle, rule string, 
 			sf := coordTimingCfg(d, 2, 2)
 			sf.StoreFaults = true
 			plan.Runs = append([]*coordCfg{sf}, plan.Runs...)
+		}
+	}
+	if id == "C13" {
+		for _, cfg := range append(append([]*coordCfg{}, plan.Runs...), plan.NoMergeRuns...) {
+			if !cfg.Timing {
+				cfg.AnonIDs = true
+			}
 		}
 	}
 	var runsInfo []map[string]any
